@@ -93,6 +93,9 @@ def families(env):
         "ite_bv": (lambda i: m.Symbol("v%d" % i, BVType(4)), lambda a: m.BVNeg(m.Ite(p, a, a)) if False else m.Ite(p, a, m.BV(1, 4)), lambda a, b: m.Ite(p, a, b)),
         "array_store": (lambda i: m.Symbol("a%d" % i, ArrayType(INT, INT)), lambda a: m.Store(a, m.Int(1), m.Int(2)),
                         lambda a, b: m.Ite(p, a, b)),
+        # every version of the array is read AND updated (a copy tower): sharing inside each level
+        "array_tower": (lambda i: m.Symbol("a%d" % i, ArrayType(INT, INT)), lambda a: m.Store(a, m.Int(1), m.Select(a, m.Int(2))),
+                        lambda a, b: m.Store(a, m.Select(b, m.Int(0)), m.Select(a, m.Int(1)))),
     }
 
 
